@@ -1,5 +1,6 @@
 import AldorVerif.Lemmas.Mangle
 import AldorVerif.Lemmas.CSplit
+import AldorVerif.Lemmas.CLit
 
 /-! # C16 (part `mangle`): property theorems about C identifier generation and file splitting
 
@@ -138,6 +139,68 @@ theorem kinds_distinct (idlen : Nat) (h : idlen = 0 ∨ 30 ≤ idlen)
 /-- the kind strings have pairwise different spellings, so `kinds_distinct` really separates them -/
 theorem kinds_spellings_distinct : (kinds.map (·.flatMap emit)).Nodup := by decide +kernel
 
+/-! ## module initialiser names -/
+
+/-- **All sites agree**: for every module string, index and identifier-length limit, the name
+under which a unit's initialiser is *defined* is the name under which the main unit declares
+and calls it (split units), under which the generated `main` declares and calls it, under which
+an importing unit declares and calls it, and which `gc0ExportInit` calls. -/
+theorem init_sites_agree (idlen : Nat) (name : Name) (k : Nat) :
+    siteDefinition idlen name false k = siteBrotherDecl idlen name k ∧
+    siteDefinition idlen name false k = siteBrotherCall idlen name k ∧
+    siteDefinition idlen name true k = siteMainDecl idlen name ∧
+    siteDefinition idlen name true k = siteMainCall idlen name ∧
+    siteDefinition idlen name true k = siteImport idlen name ∧
+    siteDefinition idlen name true k = siteExportInit idlen name := by
+  simp [siteDefinition, siteBrotherDecl, siteBrotherCall, siteMainDecl, siteMainCall, siteImport,
+    siteExportInit, moduleInitFun]
+
+theorem moduleInitFun_zero (idlen : Nat) (h : idlen = 0 ∨ 30 ≤ idlen) (a : Name) (ha : a ≠ []) :
+    moduleInitFun idlen a 0 = s "INIT__0_" ++ validIdFrom idlen 8 a := by
+  have hk : initPrefix ∈ kinds := by decide
+  obtain ⟨hg, hp, _⟩ := kinds_prefix idlen h initPrefix hk
+  have e1 : initPrefix.flatMap emit = s "INIT__" := by decide +kernel
+  have e2 : putI 0 = ['0'] := by decide +kernel
+  have e3 : s "INIT__" ++ ['0'] ++ ['_'] = s "INIT__0_" := by decide +kernel
+  have e4 : (s "INIT__" ++ ['0']).length + 1 = 8 := by decide +kernel
+  simp only [moduleInitFun, multVarId, hg, Bool.false_eq_true, if_false, indexedId, hp, e1, e2, ha]
+  rw [e4, e3]
+
+/-- **Exact characterisation**: two units get the same `INIT__0_…` name iff what is left of their
+names after `INIT__0_` (8 characters) within `idlen` agrees — there is no hash in these names. -/
+theorem init_name_eq_iff (idlen : Nat) (h : idlen = 0 ∨ 30 ≤ idlen) (a b : Name) (ha : a ≠ []) (hb : b ≠ []) :
+    moduleInitFun idlen a 0 = moduleInitFun idlen b 0 ↔ validIdFrom idlen 8 a = validIdFrom idlen 8 b := by
+  rw [moduleInitFun_zero idlen h a ha, moduleInitFun_zero idlen h b hb]
+  constructor
+  · exact List.append_cancel_left
+  · intro e; rw [e]
+
+/-- unit names that fit (with the default limit: at most 22 characters of valid identifier)
+get different initialiser names -/
+theorem module_init_names_injective_fit (idlen : Nat) (h : idlen = 0 ∨ 30 ≤ idlen) (a b : Name)
+    (ha : ∀ c ∈ a, Kept c) (hb : ∀ c ∈ b, Kept c) (hane : a ≠ []) (hbne : b ≠ [])
+    (fa : idlen = 0 ∨ 8 + (a.flatMap emit).length ≤ idlen) (fb : idlen = 0 ∨ 8 + (b.flatMap emit).length ≤ idlen)
+    (heq : moduleInitFun idlen a 0 = moduleInitFun idlen b 0) : a = b := by
+  have := (init_name_eq_iff idlen h a b hane hbne).mp heq
+  rw [validIdFrom_noCut idlen 8 a fa, validIdFrom_noCut idlen 8 b fb] at this
+  exact flatMap_emit_inj a b ha hb this
+
+/-- full-strength statement: distinct units have distinct initialisers -/
+def module_init_names_injective_statement : Prop :=
+  ∀ (idlen : Nat), (idlen = 0 ∨ 30 ≤ idlen) → ∀ (a b : Name), (∀ c ∈ a, Kept c) → (∀ c ∈ b, Kept c) →
+    a ≠ b → moduleInitFun idlen a 0 ≠ moduleInitFun idlen b 0
+
+/-- **Refuted with the default limit**: two source files whose names share their first 22
+characters define the same C function (replayed by the check: the link fails with
+`multiple definition of INIT__0_modulenamemodulenamemo`). -/
+theorem module_init_names_injective_statement_refuted : ¬ module_init_names_injective_statement := by
+  intro h
+  exact h 30 (Or.inr (Nat.le_refl _)) (s "modulenamemodulenamemoLibraryPart") (s "modulenamemodulenamemoClientPart")
+    (by decide +kernel) (by decide +kernel) (by decide +kernel) (by decide +kernel)
+
+example : moduleInitFun 30 (s "modulenamemodulenamemoLibraryPart") 0 = s "INIT__0_modulenamemodulenamemo" := by
+  decide +kernel
+
 /-! ## special characters -/
 
 /-- **The special-character renaming is injective** on identifiers made of characters it
@@ -259,6 +322,51 @@ theorem global_collision_of_same_prefix (idlen : Nat) (kind x y : Name)
   (global_collision_iff idlen kind x y).mpr ⟨hh, hp⟩
 
 end AldorVerif.Mangle
+
+namespace AldorVerif.CLit
+
+/-! ## string and character literals (`ccoPrToken`) -/
+
+/-- bytes a token text can hold -/
+def Bytes (s : List Char) : Prop := ∀ c ∈ s, c.toNat < 256
+
+/-- **Old and standard C denote the same text**: for every token text, the literal printed with
+`-Cold` (`?` written bare) and the one printed with `-Cstandard` (`\?`) are read back by a C
+compiler as the same character sequence (or are both rejected). -/
+theorem literal_escape_dialects_agree (q : Char) (hq : q = dq ∨ q = sq) (s : List Char) (hs : Bytes s) :
+    denote q (escapeLit true s) = denote q (escapeLit false s) :=
+  dialects_aux q hq s hs .normal (by decide)
+
+/-- **The printed literal denotes the token text** (both dialects) for texts of bytes 1 … 126 in
+which no byte 1 … 7 is directly followed by an octal digit character. -/
+theorem literal_escape_roundtrip_partial (std : Bool) (q : Char) (hq : q = dq ∨ q = sq) (s : List Char)
+    (hs : Safe s) : denote q (escapeLit std s) = some s :=
+  (roundtrip_aux std q hq s hs).1
+
+set_option maxRecDepth 8000 in
+/-- non-vacuity: every printable ASCII character, trigraph-like sequences, tab and newline -/
+example : Safe (" !\"#$%&'()*+,-./0123456789:;<=>?@ABCDEFGHIJKLMNOPQRSTUVWXYZ[\\]^_`abcdefghijklmnopqrstuvwxyz{|}~" ++
+    "??= ??/ ??' \t\n %d %s _").toList := safe_of_safeB _ (by decide +kernel)
+
+/-- full-strength statement over all byte strings -/
+def literal_escape_roundtrip_statement : Prop :=
+  ∀ (std : Bool) (q : Char), (q = dq ∨ q = sq) → ∀ s : List Char, (∀ c ∈ s, 0 < c.toNat ∧ c.toNat < 256) →
+    denote q (escapeLit std s) = some s
+
+/-- **Refuted**: `"\%#o"` writes one to four (or eleven) octal digits; a C compiler reads at most
+three and keeps reading digits that follow.  Byte 1 followed by `7` is printed `\017` (one
+character, code 15), DEL is printed `\0177` (code 15, then `7`), byte 0xE9 (negative as a `char`)
+is printed `\037777777751`. -/
+theorem literal_escape_roundtrip_statement_refuted : ¬ literal_escape_roundtrip_statement := by
+  intro h
+  have := h false dq (Or.inl rfl) [Char.ofNat 1, '7'] (by decide)
+  exact absurd this (by decide +kernel)
+
+example : denote dq (escapeLit false [Char.ofNat 1, '7']) = some [Char.ofNat 15] := by decide +kernel
+example : denote dq (escapeLit true [Char.ofNat 127]) = some [Char.ofNat 15, '7'] := by decide +kernel
+example : escapeLit false [Char.ofNat 233] = "\\037777777751".toList := by decide +kernel
+
+end AldorVerif.CLit
 
 namespace AldorVerif.CSplit
 
